@@ -51,6 +51,9 @@ RAW = [
     ("exported-and-private-same-name", "function f(float a) -> int\n{\n  return 2;\n}\nexport function f(int a) -> int\n{\n  return a + 1;\n}\nexport function g(int a, float b) -> int\n{\n  return f(a) + f(b);\n}\n"),
     ("private-overloads-arity", "function f(int a) -> int\n{\n  return a + 1;\n}\nfunction f(int a, int b) -> int\n{\n  return a + b;\n}\nfunction f(int a, int b, int c) -> int\n{\n  return a + b + c;\n}\nexport function g(int a) -> int\n{\n  return f(a) + f(a, 2) + f(a, 2, 3);\n}\n"),
     ("call-literal-to-float-parameter", "function h(float x) -> float\n{\n  return x * 2.0;\n}\nfunction k(int p, int q) -> int\n{\n  return p * 10 + q;\n}\nexport function g(int a) -> float\n{\n  int t = a + 1;\n  return h(1) + k(t, a) + h(t);\n}\n"),
+    ("struct-arguments", "struct S\n{\n  int a;\n  float b;\n}\nfunction g(S s, int k) -> int\n{\n  return s.a + k;\n}\nfunction g3(int k, S s, float x) -> float\n{\n  return s.b + k + x;\n}\n"
+                         "export function f(int a) -> float\n{\n  S s;\n  s.a = a;\n  s.b = 0.5;\n  return g(s, 2) + g3(1, s, 2.0);\n}\n"),
+    ("array-and-vector-arguments", "function g(int[3] t, float3 v, int k) -> float\n{\n  return t[k] + v.y;\n}\nexport function f(int a) -> float\n{\n  int[3] t;\n  t[1] = a;\n  float3 v = float3(1, 2, 3);\n  return g(t, v, 1) + g(t, v * 2.0, 2);\n}\n"),
     ("call-in-loop-with-forwarded-argument", "function k(int p) -> int\n{\n  return p + 1;\n}\nexport function g(int a) -> int\n{\n  int s = 0;\n  for (int i = 0; i < a; ++i)\n  {\n    int t = i * 2;\n    s = k(t) + k(s);\n  }\n  return s;\n}\n"),
 ]
 
